@@ -95,6 +95,50 @@ def sel_spec(draw, min_nodes=3, max_nodes=12, max_incompat=3, p_extra=True, max_
             'start': start, 'conns': [], 'cons': []}
 
 
+@st.composite
+def coupled_spec(draw):
+    """2-3 selection choices that are active from the start and coupled by incompatibility constraints between their
+    options (the complete encoder merges them into one scenario in which not every value combination exists), plus
+    optionally a dependent choice below one of the options"""
+    n_ch = draw(st.integers(2, 3))
+    nodes, edges, choices, start = {}, [], [], []
+    two_start = draw(st.booleans())
+    nodes['r'] = {'k': 'gen'}
+    start.append('r')
+    ids = draw(st.permutations([f'c{i}' for i in range(n_ch+1)]))
+    for i in range(n_ch):
+        if two_start:
+            org = f'r{i}'
+            nodes[org] = {'k': 'gen'}
+            start.append(org)
+        else:
+            org = 'r'
+        opts = [f'k{i}o{j}' for j in range(draw(st.integers(2, 3)))]
+        for o in opts:
+            nodes[o] = {'k': 'gen'}
+        choices.append({'id': ids[i], 'origin': org, 'opts': opts})
+    incompat = []
+    for _ in range(draw(st.integers(1, 3))):
+        i = draw(st.integers(0, n_ch-2))
+        j = draw(st.integers(i+1, n_ch-1))
+        pair = [draw(st.sampled_from(choices[i]['opts'])), draw(st.sampled_from(choices[j]['opts']))]
+        if pair not in incompat:
+            incompat.append(pair)
+    if draw(st.integers(0, 3)) != 0:
+        host = draw(st.sampled_from(choices[draw(st.integers(0, n_ch-1))]['opts']))
+        opts = [f'd{j}' for j in range(draw(st.integers(2, 3)))]
+        nodes['dn'] = {'k': 'gen'}
+        edges.append([host, 'dn'])
+        for o in opts:
+            nodes[o] = {'k': 'gen'}
+        choices.append({'id': ids[n_ch], 'origin': 'dn', 'opts': opts})
+    if two_start:
+        start = start[1:]
+        del nodes['r']
+    return {'salt': draw(st.sampled_from([0, 0, 1, 3])), 'nodes': nodes, 'edges': edges, 'choices': choices,
+            'incompat': incompat, 'start': start, 'conns': [], 'cons': []}
+
+
 def gen_nodes(spec):
     return [n for n, nd in spec['nodes'].items() if nd['k'] == 'gen']
 
@@ -298,6 +342,12 @@ def labels(spec):
         out.append('forced_choice')
     if spec.get('incompat'):
         out.append(f'incompat{len(spec["incompat"])}')
+    owner = {}
+    for c in spec['choices']:
+        for o in c['opts']:
+            owner.setdefault(o, set()).add(c['id'])
+    if any(u in owner and v in owner and owner[u] != owner[v] for u, v in spec.get('incompat', [])):
+        out.append('coupled_choices')
     opt_set = set(seen_opts)
     if any(o in opt_set for o in origins):
         out.append('hierarchical')
